@@ -256,7 +256,7 @@ STORE_NOTE = ('Trusted: Lean kernel (axioms propext, Classical.choice, Quot.soun
 PROPS['C01'] = dict(lean=['Mkdb.Props.C01'], facts=STORE_FACTS, runs=[dict(cmd='db', proto='db', args=['c01'])],
     sig_filter=r'db:(contents-differ:live|schema-differs:live|row-ids-not-increasing:live|row-id:live|panic:live|hang:live|select-failed:live|valid-statement-refused:live)',
     
-    claim='Proof (partial): C01_step / C01_history - for every history of tree operations of any length (inserts with whatever leaf splits, internal splits at any depth and root growths they cause, value changes, deletions) what a scan of the tree sees is exactly the plain list the history implies: accepted inserts appended in order, changed values in place, tombstones set; C01_select_sees_live_rows; C01_ids_strictly_increasing - row ids strictly increasing hence unique; C01_no_resurrection - a deleted row stays deleted through every later operation. C01_forest_* - trees sharing one file never share a page and an operation on one leaves the others alone. These are about the levels model of storage/btree.go (Mkdb.Tree); C01_heap_history / C01_heap_history_scan carry them to the heap model that is compared with the code: for every store whose page heap holds a well-formed tree and every history of inserts, value changes and deletions, the insertKeyHeap / findLeaf+updateCellAt / tombstone code of the heap model itself ends holding exactly the levels tree and scanRight returns its live cells (proved refinement, about 3500 lines, any depth up to the 64-level fuel). C01_statement_insert: at statement level, under the catalog invariant Cat (page table, sys_schema and user tables held as disjoint well-formed trees, page-table rows naming exactly them, row ids below the counter), RelationService.Insert finds the table through the catalog, appends the row under the next row id with whatever splits, re-points the catalog exactly when the root moved, logs exactly the records the model logs, leaves every other table alone and re-establishes Cat; C01_statement_unknown_table. C01_statement_select / _delete / _update: likewise Fetch returns the decoded live rows in scan order with the declared columns, MarkDeleted and Update change exactly the one row, log exactly one record and touch no other page or table, and refusals change nothing. C01_statement_create_table: CREATE TABLE of a new name adds exactly one page-table entry and one sys_schema row per declared column (read back as declared), leaves every other table and its columns alone, and its flush leaves no dirty page and the header on disk equal to the one in memory. Not covered by a theorem: multi-row statements as loops of these (engine layer: in progress), the row codec (C08) and the page codec (C12). Tie: random DDL/DML histories over up to 12 tables through RelationService on real files, with page flushes and reloads at random points and histories deep enough for internal-node splits; after every statement the outcome, at intervals SELECT * of every table, the catalog, and the complete page heap are compared with the heap model (page by page: cells, flags, sibling links, LSNs, dirty bits, header), and the judge compares every table with the in-memory spec of the statements (Spec/Tables.lean) and checks row ids.',
+    claim='Proof (partial): C01_step / C01_history - for every history of tree operations of any length (inserts with whatever leaf splits, internal splits at any depth and root growths they cause, value changes, deletions) what a scan of the tree sees is exactly the plain list the history implies: accepted inserts appended in order, changed values in place, tombstones set; C01_select_sees_live_rows; C01_ids_strictly_increasing - row ids strictly increasing hence unique; C01_no_resurrection - a deleted row stays deleted through every later operation. C01_forest_* - trees sharing one file never share a page and an operation on one leaves the others alone. These are about the levels model of storage/btree.go (Mkdb.Tree); C01_heap_history / C01_heap_history_scan carry them to the heap model that is compared with the code: for every store whose page heap holds a well-formed tree and every history of inserts, value changes and deletions, the insertKeyHeap / findLeaf+updateCellAt / tombstone code of the heap model itself ends holding exactly the levels tree and scanRight returns its live cells (proved refinement, about 3500 lines, any depth up to the 64-level fuel). C01_statement_insert: at statement level, under the catalog invariant Cat (page table, sys_schema and user tables held as disjoint well-formed trees, page-table rows naming exactly them, row ids below the counter), RelationService.Insert finds the table through the catalog, appends the row under the next row id with whatever splits, re-points the catalog exactly when the root moved, logs exactly the records the model logs, leaves every other table alone and re-establishes Cat; C01_statement_unknown_table. C01_statement_select / _delete / _update: likewise Fetch returns the decoded live rows in scan order with the declared columns, MarkDeleted and Update change exactly the one row, log exactly one record and touch no other page or table, and refusals change nothing. C01_statement_create_table: CREATE TABLE of a new name adds exactly one page-table entry and one sys_schema row per declared column (read back as declared), leaves every other table and its columns alone, and its flush leaves no dirty page and the header on disk equal to the one in memory. END TO END: C01_insert_refines_plain_model, C01_delete_refines_plain_model, C01_update_refines_plain_model - whenever the plain in-memory model (Spec/Tables.lean, the very specification the judge evaluates on the implementation) accepts a multi-row INSERT, a DELETE or an UPDATE with its WHERE, the evaluator of the engine model (statement loop, catalog lookups, WHERE evaluation, row codec, B+ tree, log batch) succeeds and the resulting store abstracts - table by table, declared columns and decoded live rows in order - to the result of the plain model. Not covered by a theorem: the page codec under the heap (C12 separately), SELECT beyond SELECT * (C05-C07 on the executor model), statements on the catalog tables themselves. Tie: random DDL/DML histories over up to 12 tables through RelationService on real files, with page flushes and reloads at random points and histories deep enough for internal-node splits; after every statement the outcome, at intervals SELECT * of every table, the catalog, and the complete page heap are compared with the heap model (page by page: cells, flags, sibling links, LSNs, dirty bits, header), and the judge compares every table with the in-memory spec of the statements (Spec/Tables.lean) and checks row ids.',
     note=STORE_NOTE,
     rule='1 deep history (1400 rows in one table, ~310 leaves, internal split; thorough also 2900 rows) + 12 (thorough 96) histories of 5-60 statements (thorough: every 8th has 260 statements over up to 12 tables of up to 11 columns), multi-row inserts of 1-12 rows, values up to the 400-byte row limit, 12% updates, 18% deletes, flush 10% / reload 5% per statement. Non-trivial: a history in which some table split a leaf; distinct by operation text.',
     assumptions=['row ids only ever arrive in ascending order (they come from the shared counter or from log replay)'],
@@ -282,7 +282,7 @@ PROPS['C14'] = dict(lean=['Mkdb.Props.C14'], facts=STORE_FACTS, runs=[dict(cmd='
           'the data file, the header on disk, the locating header fields; counters may advance, pages may be pulled into the cache) and the log untouched, hence also after '
           'a restart: C14_insert_first_row (unknown table, column-count mismatch, type mismatch, out-of-range integer, duplicate key), C14_insert_oversized_row, '
           'C14_create_table (duplicate table, out-of-range column length, catalog row too large - table or column name too long), C14_delete; '
-          'C14_insert_kth_row states exactly what happens when the k-th row (k >= 2) is refused: error returned, nothing logged, but the rows before it stay applied in the '
+          'C14_insert_refused_plain_model: against the plain in-memory model - an INSERT the plain model refuses at its first row (or into an unknown table) is refused by the engine model and the store still abstracts to the same plain database; C14_insert_kth_row states exactly what happens when the k-th row (k >= 2) is refused: error returned, nothing logged, but the rows before it stay applied in the '
           'cache - the KNOWN FINDING db:failed-statement-applied-row-prefix (same in the implementation; not repaired). Not covered by a theorem: statement-level UPDATE '
           '(update_err needs a uniqueness hypothesis), and CREATE TABLE errors that could only arise on a damaged catalog. The proof attempt for CREATE TABLE produced a Lean '
           'counterexample that was a real defect (long table/column names; repaired, a86c798); C14_create_table_long_column_witness is its kernel-checked regression. '
